@@ -113,6 +113,10 @@ row-major order -/
 def defaultIJ (n : Nat) : List (Nat × Nat) :=
   (List.range n).flatMap fun row => (List.range row).map fun col => (col, row)
 
+/-- `GrangerAnalyzer.frequencies[k]` = `np.linspace(0, Fs/2, n_freqs//2 + 1, endpoint=False)[k]`
+(`k·step`, `step = (Fs/2)/num`) -/
+def analyzerFreq (Fs : K) (num k : Nat) : K := ofNat k *. ((Fs /. ofNat 2) /. ofNat num)
+
 /-! ### line protocol (CF instance) -/
 
 /-- `freq_response(…, n_freqs)` default `sides='onesided'`: generated point count -/
@@ -202,6 +206,10 @@ def handle (args : List String) : String :=
       "ok " ++ showFloatList (flat fun g => logRe g.rX2Y) ++ " " ++ showFloatList (flat fun g => logRe g.rY2X) ++ " " ++
         showFloatList (flat fun g => logRe g.rXY)
     | _, _, _ => "bad-op"
+  | ["afreq", fs, nf] => match parseFloat? fs, nf.toNat? with
+    | some fs, some nf =>
+      "ok " ++ showFloatList ((List.range (nf / 2 + 1)).map fun k => (analyzerFreq (CF.ofFloat fs) (nf / 2 + 1) k).re)
+    | _, _ => "bad-op"
   | ["defij", n] => match n.toNat? with
     | some n => "ok " ++ joinList ((defaultIJ n).map fun q => s!"{q.1}:{q.2}")
     | none => "bad-op"
